@@ -22,7 +22,7 @@ RULE = (
     "the ranges satisfy jobs_lo >= machines_lo), name_suffix, seed (0 "
     "included), iteration_limit 0..12 - x a usage pattern (sequential, two "
     "generators interleaved, other users of the global random module in "
-    "between, explicit generate(num_jobs=..), generate(num_jobs=.., "
+    "between, generate() mixed with iteration on one of them, explicit generate(num_jobs=..), generate(num_jobs=.., "
     "num_machines=..) calls). Oracle per generated instance: job count in "
     "range, all jobs equally long with M in range, machine ids < M, durations "
     "in range, each operation has k distinct machines with k in range, a "
@@ -77,7 +77,7 @@ def strategy(tier):
     return st.fixed_dictionaries(
         {
             "params": _params(),
-            "pattern": gen.pick(["sequential", "interleaved", "global_rng", "explicit"]),
+            "pattern": gen.pick(["sequential", "interleaved", "global_rng", "explicit", "mixed"]),
             "n": st.integers(1, 10),
             "extra": st.lists(st.integers(0, 1000), min_size=1, max_size=6),
         }
@@ -180,6 +180,16 @@ def check_case(case, ctx):
         for i in range(n):
             seq2.append(g2.generate())
             random.randint(0, 10)
+    elif pattern == "mixed":
+        # the same number of instances obtained through generate() and
+        # through iteration, in different mixes
+        lim = params["iteration_limit"]
+        seq1.append(g1.generate())
+        seq1.extend(list(g1))
+        seq1.append(g1.generate())
+        seq1.extend(list(g1))
+        for _ in range(2 * lim + 2):
+            seq2.append(g2.generate())
     else:  # explicit sizes, identical calls on both generators
         for i in range(n):
             e = extra[i % len(extra)]
